@@ -54,6 +54,10 @@ def main(argv: list[str]) -> int:
     prop = None
     if "--prop" in argv:
         prop = argv[argv.index("--prop") + 1]
+    seed = "1"
+    if "--seed" in argv:
+        seed = argv[argv.index("--seed") + 1]
+        argv = [a for i, a in enumerate(argv) if i not in (argv.index("--seed"), argv.index("--seed") + 1)]
     names = [a for a in argv if not a.startswith("--") and a != prop]
     jobs = []
     if seeded:
@@ -102,7 +106,7 @@ def main(argv: list[str]) -> int:
                 line += f" suite {'passes' if ok else 'FAILS'} ({tail});"
             for pid in ([pids] if isinstance(pids, str) else pids):
                 t0 = time.time()
-                rc, out = run_check(dst, pid)
+                rc, out = run_check(dst, pid, seed=seed)
                 viol = [l for l in out.splitlines() if l.startswith("  ") and "@" in l][:2]
                 verdict = {1: "DETECTED", 0: "MISSED"}.get(rc, f"HARNESS-ERROR rc={rc}")
                 if verdict == "MISSED" and how[0] == "diff":
